@@ -1040,13 +1040,16 @@ fn ep_names(kind: &str) -> Vec<String> {
 }
 
 #[inline(never)]
-fn deep(n: u64) -> u64 {
-    let pad = [n; 64];
+fn deep(n: u64, prev: &[u8; 256]) -> u64 {
+    // every level keeps a buffer alive across the recursive call: no tail call, real stack growth
+    let mut pad = [0u8; 256];
+    pad[(n % 256) as usize] = prev[((n + 1) % 256) as usize].wrapping_add(1);
+    let p = std::hint::black_box(&pad);
     if n == 0 {
-        0
-    } else {
-        std::hint::black_box(deep(n - 1)) + std::hint::black_box(pad[(n % 64) as usize])
+        return p[0] as u64;
     }
+    let r = deep(n - 1, p);
+    r.wrapping_add(std::hint::black_box(pad[(r % 256) as usize]) as u64)
 }
 
 /// the reading entry point whose result a composite entry point works on
@@ -1318,7 +1321,7 @@ fn run_ep(kind: &str, name: &str, inp: &[u8], scratch: &str) -> Out {
                 let v: Vec<u8> = vec![1u8; 3usize << 30];
                 v[b.len()] == 1
             }),
-            "selftest[stack]" => catch(|| deep(u64::MAX / 2) > 0),
+            "selftest[stack]" => catch(|| deep(u64::MAX / 2, &[1u8; 256]) > 0),
             "selftest[spin]" => catch(|| {
                 let mut x = b.len() as u64;
                 loop {
@@ -1741,7 +1744,7 @@ fn one(a: &std::collections::HashMap<String, String>) {
                 continue;
             }
         }
-        let r = run_ep(&seed.kind, &name, &input, "/verif/work/C05dev/one_scratch.dcm");
+        let r = run_ep(&seed.kind, &name, &input, "/verif/work/C05_one_scratch.dcm");
         let loc = PANIC_LOC.with(|p| p.borrow().clone());
         println!("  {name}: {r:?} {}", if r.is_err() { loc } else { String::new() });
     }
